@@ -269,6 +269,20 @@ func c19(c *Ctx) {
 					}
 				}
 			}
+			// the verdict is taken on the list as the index returned it: nothing narrows it
+			// (the index is keyed on group, kind and name; any further filter, e.g. on the
+			// full apiVersion, would let a Usage that names another version go unseen)
+			narrowed := ""
+			for _, b := range val.Blocks {
+				for _, in := range b.Instrs {
+					if st, ok := in.(*ssa.Store); ok {
+						if r, p, okp := flow.AccessPath(st.Addr); okp && flow.Root(r) == lobj && strings.HasPrefix(p, "Items") {
+							narrowed = c.pos(st.Pos())
+						}
+					}
+				}
+			}
+			c.R.Check(narrowed == "", load.FuncName(val)+": verdict on the unfiltered list", c.pos(l.Pos()), "the listed Usages are not rewritten before the verdict", "usageList.Items is overwritten at "+narrowed+" before the verdict: Usages the index returned (e.g. naming another API version of the resource) are dropped and the delete is admitted")
 			for _, a := range allowed {
 				c.requireCross(site(a)+" no-usages", a, zero, "len(usageList.Items) == 0")
 				c.requireCross(site(a)+" list-ok", a, okEdges(l), "ok(List(usages))")
